@@ -22,7 +22,7 @@ def post_gen(plan, w, model):
 
 PROFILE = H.Profile('c02', nops=(6, 30), final_restart=True, zero_bias=0.15,
                     weights={'restart': 14, 'rm_file': 12, 'rm_dir': 7, 'rm_link': 9, 'add_link': 10, 'add_fp': 24, 'add_dir': 12,
-                             'add_eltorito': 4, 'rm_eltorito': 2, 'add_boot_file': 2, 'hide': 4, 'add_symlink': 5, 'ptr_cycle': 0.5, 'dup_pvd': 1})
+                             'add_eltorito': 4, 'rm_eltorito': 2, 'add_boot_file': 2, 'hide': 4, 'add_symlink': 5, 'ptr_cycle': 0.12, 'dup_pvd': 1})
 
 
 class C02(c01.C01):
